@@ -14,6 +14,7 @@ LEVEL_TEXT = ("Real CLI runs over generated option sets (-u/-U, -q/-Q, --nextseq
               "complement / the mate where flagged); mask/lowercase are checked against a differential --action=trim run, retain/crop "
               "and none against the recorded matches; the hooked per-modifier trace must chain from the input record to the written one.")
 LEVEL_TEXT += ' Every shard also runs cases with reads of 66-72 kb on one side of the adapter occurrences.'
+LEVEL_TEXT += ' Reads may contain letters that are no nucleotide codes (I, Z, E, Q).'
 LEVEL_NOTE = ("Trusted base: independent FASTA/FASTQ parser, refmodel.revcomp, interval arithmetic for the actions written from the "
               "documentation; hooks on modifier __call__ (missing hook => inconclusive for the action clauses, boundary clauses still decided).")
 VARIANTS = {"quick": ["plain"], "thorough": ["plain"]}
